@@ -237,6 +237,111 @@ def cases(rng, tier):
     return out
 
 
+def ld_cases(rng, tier):
+    """long-descriptor format (TTBCR.EAE = 1): generated one- to three-level tables; the physical address and NS bit of a
+    successful translation, or the fault.  The regenerated model does not contain the long-descriptor walk (py2v cannot
+    translate its mutual recursion with second_stage_translate), so these cases compare implementation and specification."""
+    t = statelib.load_index(C.GEN)['tables']
+    out = []
+    n_cases = 80 if tier == 'quick' else 4000
+    ix = {n: t['sys_names'].index(n) for n in ('cpsr', 'sctlr', 'ttbcr', 'ttbr0_64', 'ttbr1_64', 'fcseidr', 'mair0', 'mair1', 'dfsr',
+                                               'dfar', 'scr')}
+    made = 0
+    while made < n_cases:
+        cfgd = copy.deepcopy(statelib.DEFAULT_CFG)
+        cfgd['memory_system_architecture'] = 'VMSA'
+        cfgd['arch_version'] = 7
+        cfgd['have_lpae'] = True
+        cfgd['have_security_ext'] = rng.random() < 0.8
+        t0 = rng.choice([0, 0, 1, 2, 3, 5, 7])
+        t1 = rng.choice([0, 0, 1, 2, 4, 7])
+        va = rng.getrandbits(32)
+        r = rng.random()
+        if r < 0.3 and t0:
+            va &= (1 << (32 - t0)) - 1
+        elif r < 0.6 and t1:
+            va |= ((1 << t1) - 1) << (32 - t1)
+        in0 = t0 == 0 or (va >> (32 - t0)) == 0
+        in1 = (not in0) if t1 == 0 else (va >> (32 - t1)) == (1 << t1) - 1
+        ee = int(rng.random() < 0.2)
+        ttbr0, ttbr1 = rng.getrandbits(32), rng.getrandbits(32)
+        mem = []
+        label = 'ld_no_region'
+        if in1 or in0:
+            sz, ttbr = (t1, ttbr1) if in1 else (t0, ttbr0)
+            level = 1 if sz < 2 else 2
+            lb = 9 * level - sz - 4
+            base = (ttbr >> lb) << lb
+            first = True
+            ok = True
+            while True:
+                offset = 9 * level
+                sel = bits(va, 31 - sz, 39 - offset) if first else bits(va, 47 - offset, 39 - offset)
+                first = False
+                addr = base + sel * 8
+                kinds = ['invalid', 'leaf', 'leaf', 'table', 'table'] if level < 3 else ['invalid', 'leaf', 'leaf', 'leaf', 'reserved']
+                kind = rng.choice(kinds)
+                d = rng.getrandbits(64) & ~((0xFF << 40) | 3)            # output address below 2^40
+                if rng.random() < 0.8:
+                    d |= 1 << 10                                          # access flag
+                if rng.random() < 0.6:
+                    d &= ~(0x1F << 59)                                    # table attributes mostly clear
+                if rng.random() < 0.6:
+                    d = (d & ~(3 << 6)) | (1 << 6)                        # AP[2:1] = 01: read/write at any privilege
+                if kind == 'invalid':
+                    pass
+                elif kind == 'reserved':
+                    d |= 1
+                elif kind == 'table' or (kind == 'leaf' and level == 3):
+                    d |= 3
+                else:
+                    d |= 1
+                nxt = ((d >> 12) & ((1 << 28) - 1)) << 12
+                if kind == 'table' and nxt >= (1 << 32):
+                    d &= ~(0xFF << 32)                                    # keep the next table below 4GB (the hub's address space)
+                    nxt = ((d >> 12) & ((1 << 28) - 1)) << 12
+                bs = [(d >> (8 * i)) & 0xFF for i in range(8)]
+                if ee:
+                    bs = bs[::-1]
+                beg = addr & ~15
+                data = [rng.getrandbits(8) for _ in range(16)]
+                data[addr - beg:addr - beg + 8] = bs
+                dev = [beg, beg + 16, data]
+                if any(overlaps(dev, x) for x in mem) or addr >= (1 << 32):
+                    ok = False
+                    break
+                mem.append(dev)
+                label = f'ld_l{level}_{kind}'
+                if kind != 'table':
+                    break
+                base = nxt
+                level += 1
+            if not ok:
+                continue
+        st = statelib.reset_state(t, cfg=cfgd, mem=mem)
+        st['sys'][ix['cpsr']] = (rng.getrandbits(1) << 9) | rng.choice([16, 16, 19, 31, 23])
+        sctlr = (statelib.DEFAULT_CFG['reset_values']['SCTLR'] & ~((1 << 1) | (1 << 17) | (1 << 25) | (1 << 29))) | 1 | (ee << 25) | (1 << 28)
+        st['sys'][ix['sctlr']] = sctlr
+        st['sys'][ix['ttbcr']] = (1 << 31) | t0 | (t1 << 16) | (int(rng.random() < 0.05) << 7) | (int(rng.random() < 0.05) << 23)
+        st['sys'][ix['ttbr0_64']] = ttbr0
+        st['sys'][ix['ttbr1_64']] = ttbr1
+        st['sys'][ix['fcseidr']] = 0
+        st['sys'][ix['mair0']] = rng.choice([0xFF440400, rng.getrandbits(32)])
+        st['sys'][ix['mair1']] = rng.choice([0xFF440400, rng.getrandbits(32)])
+        st['sys'][ix['dfsr']] = rng.getrandbits(32)
+        st['sys'][ix['dfar']] = rng.getrandbits(32)
+        st['sys'][ix['scr']] = rng.getrandbits(1)
+        m = statelib.coq_machine(st)
+        sec = int(cfgd['have_security_ext'])
+        priv, w = rng.choice([0, 1]), rng.choice([0, 1])
+        impl = {'kind': 'method', 'state': st, 'method': 'translate_address', 'args': [va, bool(priv), bool(w), 4, True],
+                'rt': ['addrdesc_pa'], '_only_result': True}
+        spec = f'(ld_translate_spec {sec} {m} {va} {b(priv)} {b(w)})'
+        out.append({'impl': impl, 'model': None, 'spec': spec, 'label': label, 'nontrivial': True})
+        made += 1
+    return out
+
+
 def data_pa(st, va, t):
     """physical address a successful short-descriptor walk yields for va in st (mirrors the table layout the generator
     wrote; used only to place a data device, never as an oracle)"""
@@ -281,4 +386,5 @@ def units():
                                            'translate_address_v_s1_off', 'alignment_fault_v', 'convert_attrs_hints',
                                            'mem_a_with_priv_get', 'mem_a_with_priv_set')]
     return [Unit('vmsa_translate', thms, ['Proofs/VmsaProofs.v', 'Proofs/VmsaWalk.v', 'Proofs/VmsaXlate.v'], needs, cases,
-                 IMPORTS, SPEC_IMPORTS)]
+                 IMPORTS, SPEC_IMPORTS),
+            Unit('long_descriptor', [], [], [], ld_cases, IMPORTS, SPEC_IMPORTS)]
